@@ -1,5 +1,5 @@
 """C10 — deny and allow lists behave as one consistent register"""
-from tiecommon import TIE_LOCKS, TIE_DENY
+from tiecommon import TIE_LOCKS, TIE_DENY, TIE_ACCESS
 import vlib
 from vlib import hx
 
@@ -18,7 +18,7 @@ THEOREMS = [(f"Deny.{n}", P) for n in
             ["allow_tie", "deny_tie", "isDenied_tie", "setNow_tie", "prune_tie", "getDenyList_tie", "getAllowList_tie", "coverage"]]
 
 IDS = ["b1", "b2", "b3", "bk-4", ""]
-THEOREMS = THEOREMS + TIE_LOCKS + TIE_DENY
+THEOREMS = THEOREMS + TIE_LOCKS + TIE_DENY + TIE_ACCESS
 
 
 
